@@ -183,7 +183,7 @@ Definition etag_matches (s : sstate) (e : N) : bool :=
 
 Definition in_release (p : spc) : bool := match p with QRelGet | QRelDel => true | _ => false end.
 
-Definition sstep (lease rsleep : Z) (s : sstate) (ev : sevent) : sstate :=
+Definition sstep (cd : bool) (lease rsleep : Z) (s : sstate) (ev : sevent) : sstate :=
   match ev with
   | STick d => s_log {| obj := obj s; next_etag := next_etag s; snow := snow s + Z.max 0 d; scl := scl s;
                         late_delete := late_delete s; strace := strace s |} SOTick
@@ -316,17 +316,19 @@ Definition sstep (lease rsleep : Z) (s : sstate) (ev : sevent) : sstate :=
         | _ => s_cl s c (q_released x) (SOReq c KGet (RpErr f)) SReleased
         end
       | QRelDel =>
-        if lands f
+        (* cd = false: the code as it stands, DELETE is unconditional.
+           cd = true : the repair studied in C19_s3_mutex_conditional_delete, DELETE If-Match: my _etag *)
+        if lands f && (negb cd || match my_etag x with Some e => etag_matches s e | None => false end)
         then s_set s None (next_etag s) (snow s) c (q_released x)
                    (late_delete s || negb (snow s - last_write x <=? lease))
                    (SOReq c KDelete (match f with FNone => RpDone | _ => RpErr f end)) SReleased
-        else s_cl s c (q_released x) (SOReq c KDelete (RpErr f)) SReleased
+        else s_cl s c (q_released x) (SOReq c KDelete (if lands f then RpPrecond else RpErr f)) SReleased
       end
     else s_log s SONop
   end.
 
-Definition srun (lease rsleep : Z) (s : sstate) (evs : list sevent) : sstate :=
-  fold_left (sstep lease rsleep) evs s.
+Definition srun (cd : bool) (lease rsleep : Z) (s : sstate) (evs : list sevent) : sstate :=
+  fold_left (sstep cd lease rsleep) evs s.
 
 (* a holder that may rely on the lock: believes it holds, has not started releasing, and its lease
    (counted from the last create/takeover/renew it saw succeed) has not lapsed *)
@@ -342,8 +344,8 @@ Definition holder_liveb (lease : Z) (s : sstate) (c : N) : bool :=
 Definition s3_mutex_at (lease : Z) (s : sstate) : Prop :=
   forall c1 c2, holder_live lease s c1 -> holder_live lease s c2 -> c1 = c2.
 
-Definition s3_mutex_full (lease rsleep : Z) : Prop :=
-  forall evs, s3_mutex_at lease (srun lease rsleep sinit evs).
+Definition s3_mutex_full (cd : bool) (lease rsleep : Z) : Prop :=
+  forall evs, s3_mutex_at lease (srun cd lease rsleep sinit evs).
 
 (* projection used by the correspondence harness *)
 Definition ssummary (lease : Z) (s : sstate) (cs : list N) :=
